@@ -79,6 +79,14 @@ pub fn plan_for(property: &str) -> Option<(&'static str, Vec<PlanItem>)> {
             "C06",
             vec![PlanItem { family: "tx_retransmit", run: c06_tx, quick: 4000, thorough: 120000, determinism_check: true }],
         ),
+        "C18" => (
+            "C18",
+            vec![PlanItem { family: "tx_nagle", run: c18_tx, quick: 4000, thorough: 120000, determinism_check: true }],
+        ),
+        "C19" => (
+            "C19",
+            vec![PlanItem { family: "tx_buffer", run: c19_tx, quick: 4000, thorough: 120000, determinism_check: true }],
+        ),
         "C16" => (
             "C16",
             vec![PlanItem { family: "direct_rtte", run: crate::fam::direct::direct_rtte, quick: 4000, thorough: 40000, determinism_check: false }],
@@ -294,6 +302,62 @@ fn c05_tx(ctx: &CaseCtx) -> CaseReport {
     }
     rep.counters.add("datagrams", view.pkts.len() as u64);
     rep.nontrivial = rep.counters.get("c05_first_transmissions_checked") > 2;
+    let end = run.end_time;
+    finish(&mut rep, ctx, &view, run.events, end);
+    rep
+}
+
+fn c18_tx(ctx: &CaseCtx) -> CaseReport {
+    let mut rep = CaseReport::new(ctx.family, ctx.index, ctx.case_seed);
+    let mut cfg = crate::fam::txscript::generate(ctx.case_seed, crate::fam::txscript::TxFocus::Nagle, if ctx.tier == Tier::Quick { 40_000 } else { 120_000 });
+    // snapshots are needed for the Nagle-off clause
+    cfg.keep_snapshots = cfg.sock.disable_nagle;
+    rep.desc = cfg.describe();
+    let run = crate::fam::txscript::run_tx(ctx.case_seed, &cfg);
+    if let Some(p) = &run.panicked {
+        rep.inconclusive.push(format!("panic during the run: {p}"));
+    }
+    let view = WireView::build(&run.events);
+    let real_addr = if cfg.ipv6 { crate::sim::v6(crate::fam::txscript::REAL_PORT) } else { crate::sim::v4(crate::fam::txscript::REAL_PORT) };
+    if cfg.sock.disable_nagle {
+        mon::c18::check_nagle_off(&mut rep, &run.events, real_addr);
+    } else if let Some(m) = mon::sender::build(&run.events, &view, cfg.real_initiates, cfg.sock.min_payload(!cfg.ipv6)) {
+        mon::c18::check_nagle_on(&mut rep, &m, &run.events);
+        mon::c18::check_release_on_drain(&mut rep, &m, &run.events);
+    }
+    rep.counters.add("datagrams", view.pkts.len() as u64);
+    rep.nontrivial = rep.counters.get("c18_first_transmissions_checked") + rep.counters.get("c18_nagle_off_polls_checked") > 2;
+    let end = run.end_time;
+    finish(&mut rep, ctx, &view, run.events, end);
+    rep
+}
+
+fn c19_tx(ctx: &CaseCtx) -> CaseReport {
+    let mut rep = CaseReport::new(ctx.family, ctx.index, ctx.case_seed);
+    let mut cfg = crate::fam::txscript::generate(ctx.case_seed, crate::fam::txscript::TxFocus::Buffer, if ctx.tier == Tier::Quick { 300_000 } else { 3_000_000 });
+    cfg.keep_snapshots = ctx.index % 3 == 0 && cfg.writer.total < 200_000;
+    rep.desc = cfg.describe();
+    let run = crate::fam::txscript::run_tx(ctx.case_seed, &cfg);
+    if let Some(p) = &run.panicked {
+        rep.inconclusive.push(format!("panic during the run: {p}"));
+    }
+    let view = WireView::build(&run.events);
+    let real_addr = if cfg.ipv6 { crate::sim::v6(crate::fam::txscript::REAL_PORT) } else { crate::sim::v4(crate::fam::txscript::REAL_PORT) };
+    let limit = cfg.sock.tx_buf_initial.unwrap_or(32 * 1024).max(cfg.sock.tx_buf_max.unwrap_or(1024 * 1024));
+    if let Some(m) = mon::sender::build(&run.events, &view, cfg.real_initiates, cfg.sock.min_payload(!cfg.ipv6)) {
+        mon::c19::check(&mut rep, &m, &run.events, limit, real_addr);
+    }
+    mon::c19::check_silent_peer(&mut rep, &run.events, real_addr);
+    if !view.conns.is_empty() {
+        let mut scratch = CaseReport::new("scratch", 0, 0);
+        mon::c01::check_wire_dir(&mut scratch, &view, 0, cfg.real_initiates, stream_key(ctx.case_seed, 0, 0), "tx");
+        rep.counters.add("c19_wire_content_checked", scratch.counters.get("c01_wire_data_packets_checked"));
+        for v in scratch.violations {
+            rep.violate("C19", v.rule, format!("content {}", v.signature), v.detail, v.at);
+        }
+    }
+    rep.counters.add("datagrams", view.pkts.len() as u64);
+    rep.nontrivial = rep.counters.get("c19_write_returns_checked") > 1;
     let end = run.end_time;
     finish(&mut rep, ctx, &view, run.events, end);
     rep
